@@ -11,7 +11,12 @@ def prelude(bits):
     W, R = w['W'], w['R']
     decl, c = const_decls(bits)
     P = w['pfx'].upper()
+    rinv = pow(int(R.replace('int', '').replace('_', ''), 16), -1, c['PRIME'])
     txt = decl + '''
+// R^-1 mod p: computed by the unit generator, *checked* by lemma_rinv (by compute) -- not trusted
+pub open spec fn RINV() -> int { %(RINV)dint }
+// val(a): the residue class a Montgomery representative a stands for (a * R^-1 mod p)
+pub open spec fn val(a: int) -> int { (a * RINV()) %% PP() }
 pub open spec fn RR() -> int { %(R)s }
 pub open spec fn PP() -> int { %(P)s_PRIME as int }
 // mont_rel(a, v): a is the Montgomery representative of the residue class of v
@@ -28,7 +33,7 @@ pub assume_specification [%(W)s::overflowing_add] (x: %(W)s, y: %(W)s) -> (r: (%
 pub assume_specification [%(W)s::overflowing_sub] (x: %(W)s, y: %(W)s) -> (r: (%(W)s, bool))
     ensures r.0 as int == (x as int - y as int) %% RR(),
             r.1 == ((x as int) < (y as int));
-''' % dict(R=R, P=P, W=W, W2=w['W2'])
+''' % dict(R=R, P=P, W=W, W2=w['W2'], RINV=rinv)
     return txt, c
 
 
@@ -125,6 +130,7 @@ ensures
 '''.format(**fmt)))
     if bits != 128:
         add_mul_single(u, bits, fmt)
+    add_pow(u, bits, fmt, c)
     return u
 
 
@@ -193,6 +199,7 @@ requires
 ensures
     r < {P}_PRIME
     (r as int * RR()) % PP() == (x as int * y as int) % PP()
+    val(r as int) == (val(x as int) * val(y as int)) % PP()
 '''.format(**fmt)),
            before=[
                ('let (z1, z0) =', '''
@@ -255,5 +262,241 @@ ensures
                    lemma_mul_is_commutative(p, w as int);
                    lemma_mod_multiples_vanish(w as int, xyi, p);
                }}
+               lemma_mul_val(x as int, y as int, resi);
                '''.format(**fmt)),
            ])
+
+
+# --------------------------------------------------------------------------------------------------
+# pow / inv / montgomery / residue against the residue-class view val(a) = a * R^-1 mod p
+VAL_LEMMAS = '''
+proof fn lemma_rinv()
+    ensures (RINV() * RR()) % PP() == 1, 0 < RINV() < PP(), PP() > 2,
+{{
+    assert((RINV() * RR()) % PP() == 1 && 0 < RINV() < PP() && PP() > 2) by (compute);
+}}
+proof fn lemma_consts_val()
+    ensures val({P}_ROOT0 as int) == 1, val({P}_R2 as int) == RR() % PP(), {P}_R2 < {P}_PRIME, {P}_ROOT0 < {P}_PRIME,
+{{
+    assert(val({P}_ROOT0 as int) == 1 && val({P}_R2 as int) == RR() % PP() && {P}_R2 < {P}_PRIME && {P}_ROOT0 < {P}_PRIME) by (compute);
+}}
+// a == b (mod p)  ==>  a*c == b*c (mod p)
+proof fn lemma_cong_mul(a: int, b: int, c: int, p: int)
+    requires p > 0, a % p == b % p,
+    ensures (a * c) % p == (b * c) % p,
+{{
+    lemma_mul_mod_noop_left(a, c, p);
+    lemma_mul_mod_noop_left(b, c, p);
+}}
+// the Montgomery product contract, restated on residue classes
+proof fn lemma_mul_val(x: int, y: int, r: int)
+    requires 0 <= r < PP(), (r * RR()) % PP() == (x * y) % PP(),
+    ensures val(r) == (val(x) * val(y)) % PP(),
+{{
+    let p = PP(); let ri = RINV(); let rr = RR();
+    lemma_rinv();
+    lemma_cong_mul(r * rr, x * y, ri * ri, p);
+    assert((r * rr) * (ri * ri) == (r * ri) * (ri * rr)) by (nonlinear_arith);
+    assert((x * y) * (ri * ri) == (x * ri) * (y * ri)) by (nonlinear_arith);
+    lemma_mul_mod_noop_right(r * ri, ri * rr, p);
+    assert(((r * ri) * (ri * rr)) % p == ((r * ri) * 1) % p);
+    lemma_mul_mod_noop(x * ri, y * ri, p);
+}}
+// a reduced Montgomery representative is determined by its residue class: a == val(a) * R mod p
+proof fn lemma_val_inj(a: int)
+    requires 0 <= a < PP(),
+    ensures (val(a) * RR()) % PP() == a, 0 <= val(a) < PP(),
+{{
+    let p = PP(); let ri = RINV(); let rr = RR();
+    lemma_rinv();
+    lemma_mul_mod_noop_left(a * ri, rr, p);
+    assert((a * ri) * rr == a * (ri * rr)) by (nonlinear_arith);
+    lemma_mul_mod_noop_right(a, ri * rr, p);
+    lemma_small_mod(a as nat, p as nat);
+    lemma_mod_bound(a * ri, p);
+}}
+pub open spec fn powm(v: int, e: nat) -> int {{ pow(v, e) % PP() }}
+// one square-and-multiply step on residue classes
+proof fn lemma_pow_step(v: int, e1: nat, vt: int, vs: int, vm: int)
+    requires vt == powm(v, e1), vs == (vt * vt) % PP(), vm == (vs * (v % PP())) % PP(),
+    ensures vs == powm(v, 2 * e1), vm == powm(v, 2 * e1 + 1),
+{{
+    let p = PP();
+    lemma_rinv();
+    lemma_pow_adds(v, e1, e1);
+    lemma_mul_mod_noop(pow(v, e1), pow(v, e1), p);
+    lemma_pow_adds(v, 2 * e1, 1);
+    lemma_pow1(v);
+    lemma_mul_mod_noop(pow(v, 2 * e1), v, p);
+}}
+proof fn lemma_div2_step(e: int, i: nat)
+    requires e >= 0,
+    ensures e / (pow2(i) as int) == 2 * (e / (pow2(i + 1) as int)) + (e / (pow2(i) as int)) % 2, pow2(i) > 0,
+            e / (pow2(i + 1) as int) >= 0,
+{{
+    lemma_pow2_pos(i);
+    lemma_pow2_pos(i + 1);
+    lemma_pow2_unfold(i + 1);
+    let a = pow2(i) as int;
+    lemma_div_denominator(e, a, 2);
+    lemma_fundamental_div_mod(e / a, 2);
+    lemma_div_pos_is_pos(e, pow2(i + 1) as int);
+}}
+'''
+
+
+MUL128_CONTRACT = """
+// contract of FieldMulOpsSplitWord::mul, PROVED in unit fp_mul128 from the extracted text (same check run)
+#[verifier::external_body]
+fn fp128_mul_proved(x: u128, y: u128) -> (r: u128)
+    requires y < FP128_PRIME,
+    ensures r < FP128_PRIME, (r as int * RR()) % PP() == (x as int * y as int) % PP(),
+{ unimplemented!() }
+// the same contract restated on residue classes (lemma_mul_val); forwarding glue, no arithmetic of its own
+fn fp128_mul(x: u128, y: u128) -> (r: u128)
+    requires y < FP128_PRIME,
+    ensures r < FP128_PRIME, (r as int * RR()) % PP() == (x as int * y as int) % PP(),
+            val(r as int) == (val(x as int) * val(y as int)) % PP(),
+{
+    let r = fp128_mul_proved(x, y);
+    proof { lemma_mul_val(x as int, y as int, r as int); }
+    r
+}
+// [trusted: std semantics] u128::leading_zeros (vstd specifies it for u8..u64/usize only)
+pub assume_specification [u128::leading_zeros] (x: u128) -> (r: u32)
+    ensures r <= 128, (x as int) < pow2((128 - r) as nat);
+proof fn lemma_lz128(x: u128) { }
+"""
+
+LZ_LEMMA = """
+proof fn lemma_lz{bits}(x: {W})
+    ensures {W}_leading_zeros(x) <= {bits}, (x as int) < pow2(({bits} - {W}_leading_zeros(x)) as nat),
+{{
+    let lz = {W}_leading_zeros(x);
+    axiom_{W}_leading_zeros(x);
+    if lz == 0 {{
+        lemma2_to64();
+    }} else {{
+        assert((x >> (({bits} - lz) as {W})) == 0);
+        lemma_{W}_shr_is_div(x, ({bits} - lz) as {W});
+        lemma_pow2_pos(({bits} - lz) as nat);
+        lemma_fundamental_div_mod(x as int, pow2(({bits} - lz) as nat) as int);
+        lemma_mod_bound(x as int, pow2(({bits} - lz) as nat) as int);
+    }}
+}}
+"""
+
+POW_LOOP = """
+invariant
+    k_ <= {bits},
+    k_ == 0 ==> (exp as int) / (pow2(k_ as nat) as int) == exp as int,
+    x < {P}_PRIME,
+    t < {P}_PRIME,
+    val(t as int) == powm(val(x as int), ((exp as int) / (pow2(k_ as nat) as int)) as nat),
+decreases k_
+"""
+
+POW_INIT_HINT = """
+lemma_consts_val(); lemma_rinv(); lemma_lz{bits}(exp); lemma2_to64();
+lemma_pow0(val(x as int));
+lemma_small_mod(1, PP() as nat);
+lemma_pow2_pos(k_ as nat);
+lemma_basic_div(exp as int, pow2(k_ as nat) as int);
+assert(k_ == 0 ==> (exp as int) / (pow2(k_ as nat) as int) == exp as int) by {{ lemma2_to64(); lemma_div_basics_2(exp as int); }}
+"""
+
+POW_STEP_HINT = """
+let ghost v = val(x as int);
+let ghost e1 = ((exp as int) / (pow2((i + 1) as nat) as int)) as nat;
+lemma_div2_step(exp as int, i as nat);
+lemma_rinv();
+lemma_mod_bound(x as int * RINV(), PP());
+lemma_small_mod(v as nat, PP() as nat);
+let ghost vs = (val(t as int) * val(t as int)) % PP();
+lemma_pow_step(v, e1, val(t as int), vs, (vs * (v % PP())) % PP());
+lemma_{W}_shr_is_div(exp, i as {W});
+assert(((exp >> i) & 1 != 0) == ((exp >> i) % 2 == 1)) by (bit_vector);
+assert(i == 0 ==> (exp as int) / (pow2(i as nat) as int) == exp as int) by {{ lemma2_to64(); lemma_div_basics_2(exp as int); }}
+"""
+
+
+def add_pow(u, bits, fmt, c):
+    """pow (square-and-multiply, E4b loop-shape rewrite), inv, montgomery, residue.  `mul` is seen
+    through its contract only (for FP128 the contract is the one proved in unit fp_mul128)."""
+    W, W2, P, p = fmt['W'], fmt['W2'], fmt['P'], fmt['p']
+    f2 = dict(fmt, bits=bits)
+    u.raw(VAL_LEMMAS.format(**fmt), 'val-lemmas')
+    u.raw(MUL128_CONTRACT if bits == 128 else LZ_LEMMA.format(**f2), 'lz')
+    mulname = p + '_mul'
+    u.item(F, ['trait FieldOps', 'fn pow'], name=p + '_pow', ret='r',
+           rewrites=[(r'for i in \(0\.\.([^{};]+?)\)\.rev\(\)\s*\{',
+                      r'let mut k_: usize = \1; while k_ > 0 { k_ = k_ - 1; let i = k_;', 1),      # E4b
+                     (r'\bSelf::ROOTS\[0\]', P + '_ROOT0', 1), (r'\bSelf::mul\(', mulname + '(', 2),
+                     (r'\bW::BITS\b', '%dusize' % bits, '*')] + tsel(bits) + wty(bits),
+           sig=_commas('''
+requires
+    x < {P}_PRIME
+ensures
+    r < {P}_PRIME
+    val(r as int) == powm(val(x as int), exp as nat)
+'''.format(**fmt)),
+           loops={0: POW_LOOP.format(**f2)},
+           before=[('while k_ > 0', POW_INIT_HINT.format(**f2)),
+                   ('t = %s(t, t)' % mulname, POW_STEP_HINT.format(**f2))])
+    u.item(F, ['trait FieldOps', 'fn inv'], name=p + '_inv', ret='r',
+           rewrites=[(r'\bSelf::pow\(', p + '_pow(', 1)] + tsel(bits) + wty(bits),
+           sig=_commas('''
+requires
+    x < {P}_PRIME
+ensures
+    r < {P}_PRIME
+    val(r as int) == powm(val(x as int), (PP() - 2) as nat)
+'''.format(**fmt)),
+           before=[(p + '_pow(', 'lemma_rinv();')])
+    u.raw('''
+proof fn lemma_montgomery_val(x: int)
+    ensures ((val(x) * val({P}_R2 as int)) % PP()) == x % PP(),
+{{
+    let p = PP(); let ri = RINV(); let rr = RR();
+    lemma_rinv(); lemma_consts_val();
+    lemma_mul_mod_noop(x * ri, rr, p);
+    assert((x * ri) * rr == x * (ri * rr)) by (nonlinear_arith);
+    lemma_mul_mod_noop_right(x, ri * rr, p);
+}}
+proof fn lemma_residue_val(x: int)
+    ensures (((val(x) * val(1)) % PP()) * RR()) % PP() == val(x),
+{{
+    let p = PP(); let ri = RINV(); let rr = RR(); let v = val(x);
+    lemma_rinv();
+    lemma_mod_bound(x * ri, p);
+    lemma_small_mod(ri as nat, p as nat);
+    assert(val(1) == ri);
+    lemma_mul_mod_noop_left(v * ri, rr, p);
+    assert((v * ri) * rr == v * (ri * rr)) by (nonlinear_arith);
+    lemma_mul_mod_noop_right(v, ri * rr, p);
+    lemma_small_mod(v as nat, p as nat);
+}}
+'''.format(**fmt), 'mont-lemmas')
+    u.item(F, ['trait FieldOps', 'fn montgomery'], name=p + '_montgomery', ret='r',
+           rewrites=[(r'\bSelf::modp\(', p + '_modp(', 1), (r'\bSelf::mul\(', mulname + '(', 1),
+                     (r'\bSelf::R2\b', P + '_R2', 1)] + tsel(bits) + wty(bits),
+           sig=_commas('''
+ensures
+    r < {P}_PRIME
+    val(r as int) == (x as int) % PP()
+'''.format(**fmt)),
+           before=[(p + '_modp(', 'lemma_consts_val(); lemma_montgomery_val(x as int);')])
+    u.item(F, ['trait FieldOps', 'fn residue'], name=p + '_residue', ret='r',
+           rewrites=[(r'\bSelf::modp\(', p + '_modp(', 1), (r'\bSelf::mul\(', mulname + '(', 1)] + tsel(bits) + wty(bits),
+           sig=_commas('''
+ensures
+    r < {P}_PRIME
+    r as int == val(x as int)
+'''.format(**fmt)),
+           before=[(p + '_modp(', '''
+               lemma_rinv();
+               assert forall|m: int| 0 <= m < PP() implies (#[trigger] val(m) * RR()) % PP() == m by {
+                   lemma_val_inj(m);
+               }
+               lemma_residue_val(x as int);
+           ''')])
